@@ -1,7 +1,7 @@
 """C13 - callback registrations have exactly one owner and end when that owner does.
 
 spec/SbxContract.tla (Allowed/Apply/Registered/CInv), spec/Sbx.tla (Model, TablesExact,
-Refines, edge emission), spec/Trace_Sbx.tla (oracle), harness/sbx_driver.cpp (vm + no-op)."""
+Refines, edge emission), spec/Trace_Sbx.tla (oracle), harness/sbx_driver.cpp (vm, no-op, dylib)."""
 import os
 import random
 
@@ -73,7 +73,7 @@ def run(tier):
         edges, init = m
         n_edges += len(edges)
         sets.append((hdr, vp.cover_walks(edges, init, maxlen=300)))
-    lines, expected = sx.walks_to_lines(sets)
+    lines, expected = sx.walks_to_lines(sets, observe=True)
     n_model_lines = len(lines)
     extra = []
     extra.append(capacity_history(2))
@@ -99,6 +99,12 @@ def run(tier):
     bad += sx.validate(chk, "Trace_Sbx", ntpath, nevents, nlines, "noop")
     n_ev += len(nevents)
     n_exec += sum(1 for e in nevents if e["e"] == "reset")
+    # dylib backend (64 entry points, real dlopen'ed guest library): the same script
+    ddrv, dlibs = sx.dylib_driver()
+    devents, dtpath = sx.replay(ddrv, wd, "dylib", nlines, dlibs)
+    bad += sx.validate(chk, "Trace_Sbx", dtpath, devents, nlines, "dylib")
+    n_ev += len(devents)
+    n_exec += sum(1 for e in devents if e["e"] == "reset")
     for b in bad:
         chk.violation("[%s backend] event %d outside the C13 Contract: %s" % (b["backend"], b["index"], b["event"]),
                       {"backend": b["backend"], "walk": b["walk"], "event": b["event"]})
@@ -107,9 +113,9 @@ def run(tier):
         chk.sample(ev)
     chk.cov["model_edges_replayed"] = n_edges
     chk.cov["exhaustive"] = True
-    chk.cov["exhaustive_scope"] = "every edge of the bounded Sbx models %s replayed on vm and no-op backends; " \
+    chk.cov["exhaustive_scope"] = "every edge of the bounded Sbx models %s replayed on vm, no-op and dylib backends; " \
                                   "capacity and random histories beyond" % [c[0] for c in cfgs]
     chk.assumptions += ["reachability is probed by calling every entry point ever handed out, each in a forked child",
-                        "dylib backend shares the callback-table code shape of the no-op backend; exercised by C12"]
+                        "on the native backends (no-op, dylib) reachability goes through the trampolines' addresses"]
     return chk.finish(rule="one evaluation = one recorded API call (with result and owner projection) validated by TLC "
                            "against SbxContract; distinct_nontrivial = distinct Model edges replayed")
